@@ -108,17 +108,8 @@ pub fn print_js<'a>(
     let final_source_map = chain_source_maps(source_map, &original_source_map.source, config)
         .unwrap_or_else(|| String::from(source_map));
 
-    let final_code = if config.print_comments {
-        match &original_source_map.source_map_comment {
-            Some(comment) => {
-                debug!("Replacing original sourceMappingUrl comment: {comment}");
-                code.replace(comment.as_str(), "").into()
-            }
-            _ => code.into(),
-        }
-    } else {
-        code.into()
-    };
+    // the original sourceMappingURL comment is removed from the comments before printing
+    let final_code: Cow<'a, str> = code.into();
 
     if final_source_map.is_empty() {
         debug!("No sourcemap available");
@@ -199,6 +190,9 @@ fn transform_js<R: Read>(
             // extract sourcemap before printing otherwise comments are consumed
             // and looks like it is not possible to read them after compiler.print() invocation
             let original_source_map = extract_source_map(file, compiler.comments(), file_reader);
+            if original_source_map.source_map_comment.is_some() {
+                remove_source_map_comments(compiler.comments());
+            }
 
             compiler
                 .print(&program, print_args)
@@ -334,6 +328,13 @@ fn extract_source_map<R: Read>(
     OriginalSourceMap {
         source,
         source_map_comment,
+    }
+}
+
+// the original sourceMappingURL comment is superseded by the one appended to the rewritten code
+fn remove_source_map_comments(comments: &SwcComments) {
+    for mut trailing in comments.trailing.iter_mut() {
+        trailing.retain(|comment| !comment.text.trim().starts_with(SOURCE_MAP_URL));
     }
 }
 
